@@ -76,12 +76,12 @@ PROPS = {
         "twin_flavours": ["asan", "asan0", "plain"],
     },
     "C08": {
-        "arms": [arm("io", 0, weight=4), arm("io", 1, weight=3), arm("io", 0, "asan0", weight=1)],
+        "arms": [arm("io", 0, weight=4), arm("io", 1, weight=3), arm("io", 0, weight=1, long=1), arm("io", 0, "asan0", weight=1)],
         "rule": "live objects after arbitrary histories are written in LP format (path plain/.gz/.bz2, caller FILE*, reporter sink) over the simulated disk and read back (path or line reader); non-trivial = at least one undamaged LP file of a problem meeting the precondition was read back and compared by name with the model it was written from; distinct = distinct plan hashes",
         "assumptions": COMMON_ASSUME + ["the round-trip law is asserted only for files on whose path no destructive fault fired"],
     },
     "C09": {
-        "arms": [arm("io", 0, weight=4), arm("io", 1, weight=3), arm("io", 0, "asan0", weight=1)],
+        "arms": [arm("io", 0, weight=4), arm("io", 1, weight=3), arm("io", 0, weight=1, long=1), arm("io", 0, "asan0", weight=1)],
         "rule": "as C08 for MPS output, including LP->MPS->LP and MPS->LP->MPS chains; non-trivial = at least one undamaged MPS file was read back and compared (native RANGES included); distinct = distinct plan hashes",
         "assumptions": COMMON_ASSUME + ["the round-trip law is asserted only for files on whose path no destructive fault fired"],
     },
@@ -96,7 +96,7 @@ PROPS = {
         "assumptions": COMMON_ASSUME,
     },
     "C14": {
-        "arms": [arm("io", 0, weight=4), arm("io", 1, weight=3)],
+        "arms": [arm("io", 0, weight=4), arm("io", 1, weight=3), arm("io", 0, weight=2, long=1)],
         "rule": "basis files written (own basis or a given one) and read back against the same problem, then arbitrary further operations; non-trivial = a basis write checked for leaving the object untouched, or an undamaged basis file read back and compared; distinct = distinct plan hashes",
         "assumptions": COMMON_ASSUME,
     },
